@@ -207,7 +207,8 @@ claim("C17",
   "positions (no size bound): nullable_forms_equal / nullable_typelist_equal ({type:T,nullable:true} == {type:[T,null]}), nullable_oneof_equal / nullable_anyof_equal (nullable union == explicit null "
   "member appended - twice where the validators run twice), nullable_allof_equal (== oneOf[null,{allOf}], null first), typelist_anyof_equal (type list == anyOf of the single types), enum_null_equal "
   "(under g_enum_null: enum containing null == oneOf[{type:null},{enum: rest}] in exactly that member order with the same derived names / classes, any outer annotations), single_ref_wrapper + wrapper_exact "
-  "(under g_wrapper: allOf|oneOf|anyOf:[$ref R] with ANY other keywords == $ref R; with a default: exactly the referenced class renamed and the default re-validated), excl_bool_numeric_equal, hx_idempotent, "
+  "(under g_wrapper: allOf|oneOf|anyOf:[$ref R] with ANY other keywords == $ref R; with a default: exactly the referenced class renamed and the default re-validated), from_ref_default_from_parent / ref_target_default_dropped / wrapper_target_default_dropped (the REFERENCED schema's own default never reaches the referring property, through a bare $ref or a wrapper: "
+  "it carries the referring schema's default or none), excl_bool_numeric_equal, hx_idempotent, "
   "loader: parser_choice / json_parser_iff (JSON parser iff content type is exactly application/json), loader_dispatch / file_url_same / url_without_header_same (file and URL sources reach the same loader). "
   "Refutation witnesses for each guard complement and for non-congruence: enum_null_typelist_refuted, nullable_union_top_refuted, wrapper_default_refuted, wrapper_nullable_refuted, wrapper_not_congruent_refuted. "
   "Tie to the code on every run: B1 the real pydantic validators at the position the schema sits == Norm.pre_at/hx (~500 schemas quick); B2 the property objects built by build_schemas at component-root and "
